@@ -182,10 +182,11 @@ def parse_vc(path):
         elif d == "loop":
             cur = dict(kind="loop", fn=parts[1], n=int(parts[2]), line=ln, opt=("opt" in parts[3:]))
         elif d == "hint":
-            m = re.match(r'@@\s*hint\s+(\S+)\s+(before|after)\s+"(.*)"(?:\s+#(\d+))?(?:\s+([+-]\d+))?\s*$', raw)
+            m = re.match(r'@@\s*hint\s+(\S+)\s+(before|after)\s+"(.*)"(?:\s+#(\d+))?(?:\s+([+-]\d+))?(\s+opt)?\s*$', raw)
             if not m:
                 raise SystemExit("%s:%d: bad hint" % (path, ln))
-            cur = dict(kind="hint", fn=m.group(1), where=m.group(2), anchor=m.group(3), nth=int(m.group(4) or 1), plus=int(m.group(5) or 0), line=ln)
+            # `opt`: a hint that only helps to prove something ABOUT its anchor statement; without the statement there is nothing to help
+            cur = dict(kind="hint", fn=m.group(1), where=m.group(2), anchor=m.group(3), nth=int(m.group(4) or 1), plus=int(m.group(5) or 0), opt=bool(m.group(6)), line=ln)
         elif d == "callghost":
             # @@ callghost <fnpath> <callee> "<first argument text>" "<ghost expression>"
             m = re.match(r'@@\s*callghost\s+(\S+)\s+(\S+)\s+"(.*?)"\s+"(.*)"\s*$', raw)
@@ -1258,6 +1259,9 @@ def process_fn(u, fnpath, text, log, origin, canary=None):
             continue
         hits = [i for i, l in enumerate(lines) if h["anchor"] in l]
         if len(hits) < h["nth"]:
+            if h.get("opt"):
+                log.append(("hint-skipped", fnpath, "%s: anchor statement absent" % vctag(u, h["line"])))
+                continue
             raise Lost("hint anchor %r (#%d) not found in %s (%s)" % (h["anchor"], h["nth"], fnpath, vctag(u, h["line"])))
         at = hits[h["nth"] - 1] + h.get("plus", 0)
         ins = h["text"].split("\n")
